@@ -31,8 +31,9 @@ R = Run("C20", "pinned malformed strings + every table symbol / prefixed form / 
         "generator of valid unit expressions (two renderings per AST) + token-level mutations + byte-level "
         "fuzz, in the default and three custom registries; units from seeded random unit arithmetic; "
         "non-trivial = distinct string (or recipe) that is not a bare table symbol",
-        "quick: 20 000 generated strings + ~5 000 names + 3 000 arithmetic recipes; thorough: 300 000 generated "
-        "strings + names + 40 000 recipes; per-call time limit 5 s")
+        "quick: 20 000 generated strings (3 000 ASTs x 2 renderings, 9 000 mutations, 5 000 byte-fuzz) + ~490 pinned "
+        "strings + ~4 200 names + 3 000 arithmetic recipes; thorough: 300 000 generated strings (40 000 x 2, 140 000, "
+        "80 000) + pins + names + 40 000 recipes; per-call time limit 5 s (killed worker = resource exhaustion)")
 
 import lib_c20_gen as G  # noqa: E402
 from unyt import Unit  # noqa: E402
@@ -52,7 +53,7 @@ HANG_PINS = ["10**10**10", "m**2**2**2**2**2**2"]
 PINS = [
     # symbol / expression exponents and bases
     "m**s", "m**(2*s)", "2**m", "m**m", "m**(-s)", "m**(s/2)", "m**(s**2)", "m**(2.0*s)", "m**sqrt(s)", "(2*m)**s",
-    "m**sqrt(2)", "J**((2/3)*(-1)**0.5)", "m**(2**0.5)", "2**0.5*m", "m**(10**10)", "m**10**10", "km**(10**10)", "m**1e400", "1e400*m", "1e-400*m", "m**(1/0)", "m**(0/0)",
+    "m**sqrt(2)", "1e3**(-2)**1e3**(-2)**1e3**(-2)**1e3**(-2)**1e3**(-2)", "1e3**(-2)**1e3**(-2)", "J**((2/3)*(-1)**0.5)", "m**(2**0.5)", "2**0.5*m", "m**(10**10)", "m**10**10", "km**(10**10)", "m**1e400", "1e400*m", "1e-400*m", "m**(1/0)", "m**(0/0)",
     "m/0", "0*m", "0/m", "m**0", "(-2)**(1/3)*m", "(-8)**(1/3)*m", "(-1)**0.5", "(-1)**0.5*m", "m**(-1)**0.5", "(-m)**0.5",
     "(-2*m)**(1/3)", "m**True", "m*True", "m**None", "m**dimensionless", "m**rad", "m**(kg/g)", "m**(m/m)", "m**(s*0)",
     # operators and syntax
@@ -105,12 +106,14 @@ PINS = [
 PIN_FAMILY = {}
 for _s in ["m**(2*s)", "m**(-s)", "m**(s/2)", "m**(s**2)", "m**(2.0*s)", "m**sqrt(s)", "m**(kg/g)"]:
     PIN_FAMILY[_s] = "expression-exponent"
-for _s in ["(-2)**(1/3)*m", "(-8)**(1/3)*m", "(-2*m)**(1/3)", "(-2)**(1/3)*code_length"]:
+for _s in ["(-2)**(1/3)*m", "(-8)**(1/3)*m", "(-2*m)**(1/3)", "(-2)**(1/3)*code_length", "1e3**(-2)**1e3**(-2)"]:
     PIN_FAMILY[_s] = "complex-coefficient"
 for _s in ["Symbol('')", "Symbol('')*m"]:
     PIN_FAMILY[_s] = "empty-symbol-name"
 for _s in HANG_PINS:
     PIN_FAMILY[_s] = "power-tower"
+for _s in ["1e3**(-2)**1e3**(-2)**1e3**(-2)**1e3**(-2)**1e3**(-2)"]:
+    PIN_FAMILY[_s] = "numeric-overflow"
 for _s in ["10**5000+m", "(10**5000, m)", "(10**5000*m)**s", "[10**5000]", "s**(10**-5000)-1"]:
     PIN_FAMILY[_s] = "huge-integer-in-error-message"
 # pins outside the vocabulary that this tree accepts (reported under their construct class only)
@@ -158,7 +161,7 @@ SPELL_GROUPS = [
 # ------------------------------------------------------------------------------------------
 RT_SRC = ("import math\nfrom sympy import Symbol, Integer, Rational, Float\nfrom fractions import Fraction\n" +
           inspect.getsource(G.same_value) + "SPECIAL_OK = (Symbol, Integer, Rational, Float)\n" +
-          inspect.getsource(G.micro_only) +
+          inspect.getsource(G.sstr) + inspect.getsource(G.micro_only) +
           inspect.getsource(G.rt_check) + inspect.getsource(G._rt_check))
 MK = ("regs = c20_registries()\n"
       "def mk(s, rn):\n    return Unit(s) if regs[rn] is None else Unit(s, registry=regs[rn])\n")
@@ -454,6 +457,8 @@ for steps, rn in [
       "u = u ** math.pi"], "default"),
     (["u = Unit('foe', registry=reg)", "u = u / Unit('ystatA', registry=reg)", "u = u ** math.pi", "u = (u * u) ** 0.5"], "default"),
     (["u = Unit('uamp', registry=reg)", "u = u * Unit('s', registry=reg)"], "default"),
+    (["u = Unit('code_temp', registry=reg)", "u = Unit(3 * u, registry=reg)", "u = Unit(0.3333333333333333 * u, registry=reg)"], "custom"),
+    (["u = Unit('degC', registry=reg)", "u = Unit(2.0 * u, registry=reg)", "u = Unit(0.5 * u, registry=reg)"], "default"),
     (["u = Unit('2*lat', registry=reg)", "u = (u * u) ** 0.5"], "default"),
     (["u = Unit('lat', registry=reg)", "u = Unit(0.5 * u, registry=reg)", "u = (u * u) ** 0.5",
       "u = u / Unit('nSv', registry=reg)"], "default"),
@@ -535,7 +540,7 @@ for group, identical in SPELL_GROUPS:
                    ("accept", s, "default"))
         except Exception as e:
             us.append(None)
-            record("C20[total:%s@%s]" % (type(e).__name__, G.innermost_unyt_frame(e)), len(tasks),
+            record("C20[total:escapes@%s]" % G.innermost_unyt_frame(e), len(tasks),
                    "Unit(%r) raised %r" % (s, e), ("total", s, "default"))
     a = us[0]
     for s, b in zip(group[1:], us[1:]):
